@@ -3,6 +3,21 @@ NOTES = ("All checks share one Coq development and one harness; ./check --setup 
          "Fix commits in /repo (F1-F7) are listed in known_findings.json as fixed entries.")
 NOT_APPLICABLE = {}
 CHECKS = {
+    "C10": {
+        "text": "Theorems for ANY depth, ANY PRG, ANY puncture history (unbounded, any order, repetitions): an input evaluates iff never punctured, and "
+                "then to its fresh-key value; fresh punctures succeed and add exactly that input; repeated punctures are refused without change; "
+                "wrong lengths refused without change; values distinct up to an explicit PRG collision. Invariant: for every leaf the list of "
+                "retained prefixes covering it is a singleton (unpunctured) or empty (punctured), with the node's own seed. The model is bit-exact "
+                "(STROBE PRG) and compared with the Rust step by step including a digest of the retained key material.",
+        "note": "GGM::setup's secrets are read back through the verif-hooks accessor; the model starts from them.",
+    },
+    "C11": {
+        "text": "Theorems for ANY depth / PRG / history: no retained prefix is a prefix of a punctured input; every unpunctured input has exactly one "
+                "retained ancestor with its own seed; retained seeds are exactly node seeds; the root is never stored. The Rust key material is "
+                "read through the hook after every puncture and compared with the model state (digest per step, full state at the end).",
+        "note": "Partial: that the remaining seeds do not let one recompute a punctured value is one-wayness of the PRG (assumed). "
+                "Export/import of the state between servers is exercised under C14.",
+    },
     "C03": {
         "text": "The keystream clause is refuted by proof: for any permutation F, ciphertext byte i < 166 is payload byte i XOR a key-only byte, "
                 "so two reports of one measurement leak the XOR of their payloads on the first block (theorem C03_keystream_reuse_refuted; known "
